@@ -11,11 +11,20 @@
 //   merges them (the model does the same merge: coq/C19/Model.v add_group).
 //   optional trailer (NOT read by the model: it does not change the context a correct implementation ends up with):
 //   nDirectives { group k kind target nTail }*   - see struct Directive
-// Observation: [-997 if the context is inconsistent after the adds] per declaration (in order) nameLen name.. alias level neg of the registered option | -1 (key refused) ; descLen desc.. fault(0) ; defsLen defs.. ;
+//   Every case ALSO prints its help through the library's own printer, Application::printHelp(ctx) (FileOut(stdout) + printf, what `--help` of
+//   an Application does), with fd 1 redirected into a temporary file: the captured text must be, byte for byte,
+//     "<name> version <v>\nusage: <name> [options]\n" + description() + "\nusage: <name> [options]\nDefault command-line:\n<name> " + defaults(strlen(name)+1) + "\n"
+//   where description() / defaults() are what the direct calls below return (the application's name has prefixN-1 characters, so the default
+//   command line is the one the observation shows; prefixN = 0: name "app", compared with defaults(4)).  Nothing is printed when they agree.
+// Observation: [-997 if the context is inconsistent after the adds] [-996 flags len bytes.. if the help printed by Application::printHelp differs:
+//              flags 1 = description part / frame differs, 2 = default command line differs; bytes = the captured text behind "Default command-line:\n"]
+//              per declaration (in order) nameLen name.. alias level neg of the registered option | -1 (key refused) ; descLen desc.. fault(0) ; defsLen defs.. ;
 //              0 nParsed { optIndex valLen val.. }*  |  errorClass (1 unknown, 2 ambiguous, 3 syntax, 9 other)
 #include "common.h"
 #include <deque>
 #include <memory>
+#include <unistd.h>
+#include <potassco/application.h>
 #include <potassco/program_opts/program_options.h>
 #include <potassco/program_opts/typed_value.h>
 #include <potassco/program_opts/errors.h>
@@ -33,6 +42,40 @@ struct GroupSpec { std::string cap; ll level, declLevel, addLevel; size_t first,
 //   2 no clash (plain split).  `tail` further options follow the refused one inside the same piece.
 // A refused add keeps the options in front of the clash and nothing else, so the context is the one the case describes.
 struct Directive { size_t g, k; ll kind; size_t target, tail; };
+
+// An application that leaves help printing to the library (printHelp / printUsage are NOT overridden).
+struct HelpApp : Potassco::Application {
+	std::string name;
+	explicit HelpApp(const std::string& n) : name(n) {}
+	const char* getName()    const { return name.c_str(); }
+	const char* getVersion() const { return "1.0"; }
+	void initOptions(Po::OptionContext&) {}
+	void validateOptions(const Po::OptionContext&, const Po::ParsedOptions&, const Po::ParsedValues&) {}
+	void setup() {}
+	void run()   {}
+};
+// Runs app.printHelp(ctx) with fd 1 pointing into a temporary file and returns what was written.
+static std::string capturedHelp(HelpApp& app, const Po::OptionContext& ctx) {
+	static FILE* tmp = std::tmpfile();
+	std::string got;
+	if (!tmp) return got;
+	int tfd = fileno(tmp);
+	std::fflush(stdout);
+	int saved = dup(1);
+	if (saved < 0) return got;
+	if (ftruncate(tfd, 0) != 0 || lseek(tfd, 0, SEEK_SET) < 0 || dup2(tfd, 1) < 0) { close(saved); return got; }
+	try { app.printHelp(ctx); } catch (...) { got = "<exception>"; }
+	std::fflush(stdout);
+	dup2(saved, 1);
+	close(saved);
+	off_t end = lseek(tfd, 0, SEEK_END);
+	if (end > 0) {
+		std::string buf((size_t)end, '\0');
+		ssize_t r = pread(tfd, &buf[0], buf.size(), 0);
+		if (r > 0) got.append(buf.data(), (size_t)r);
+	}
+	return got;
+}
 
 int main() {
 	Case c; Obs o;
@@ -176,7 +219,37 @@ int main() {
 				if (ctx.tryFind(refusedNames[i].c_str(), Po::OptionContext::find_name) != ctx.end()) anomaly = true;
 			}
 		}
+		ctx.setActiveDescLevel((Po::DescriptionLevel)active);
+		std::string text;
+		{
+			Po::StringOut out(text);
+			ctx.description(out);
+		}
+		std::string defs = ctx.defaults(prefix);
+		// the same help through Application::printHelp (the library's `--help` printer)
+		ll helpFlags = 0; std::string helpDefs;
+		{
+			HelpApp app(prefix ? std::string(prefix - 1, 'a') : std::string("app"));
+			std::string appDefs = prefix ? defs : ctx.defaults(app.name.size() + 1);
+			std::string usage = "usage: " + app.name + " " + app.getUsage() + "\n";   // getUsage(): the library's default, "[options]"
+			std::string marker = "Default command-line:\n";
+			std::string front = app.name + " version 1.0\n" + usage + text + "\n" + usage + marker;
+			std::string got = capturedHelp(app, ctx);
+			size_t cut;
+			if (got.compare(0, front.size(), front) == 0) { cut = front.size(); }
+			else {
+				helpFlags |= 1;
+				cut = got.rfind(marker);
+				cut = cut == std::string::npos ? got.size() : cut + marker.size();
+			}
+			helpDefs = got.substr(cut);
+			if (helpDefs != app.name + " " + appDefs + "\n") helpFlags |= 2;
+		}
 		if (anomaly) { o.add(-997); }
+		if (helpFlags) {
+			if (helpDefs.size() > 600) helpDefs.resize(600);
+			o.add(-996); o.add(helpFlags); o.add((ll)helpDefs.size()); o.addBytes(helpDefs.data(), helpDefs.size());
+		}
 		{
 			Po::OptionContext::option_iterator it = ctx.begin();
 			for (size_t i = 0; i != specs.size(); ++i) {
@@ -187,15 +260,8 @@ int main() {
 				o.add((unsigned char)opt.alias()); o.add((ll)opt.descLevel()); o.add(opt.value()->isNegatable() ? 1 : 0);
 			}
 		}
-		ctx.setActiveDescLevel((Po::DescriptionLevel)active);
-		std::string text;
-		{
-			Po::StringOut out(text);
-			ctx.description(out);
-		}
 		o.add((ll)text.size()); o.addBytes(text.data(), text.size());
 		o.add(0);
-		std::string defs = ctx.defaults(prefix);
 		o.add((ll)defs.size()); o.addBytes(defs.data(), defs.size());
 		try {
 			Po::ParsedValues pv = Po::parseCommandString(defs, ctx);
